@@ -28,6 +28,19 @@ def generate(rnd, tier):
             s["text"] = rnd.choice(TEXTS)
             s["height"] = rnd.choice([30, 30, 4, 5, 8, 12])
         cases.append(c)
+    # the configured width changed while the application runs (a terminal resize handled by the application): what is drawn afterwards follows the new width,
+    # separator included. The model's width is a constant: these sessions are judged by the oracle only.
+    for _ in range(n // 6):
+        c = gen_case(rnd, "tame", sid)
+        c["width"] = rnd.choice([80, 40, 20, rnd.randint(5, 120)])
+        for s in c["screens"]:
+            s["title"] = rnd.choice([None, "T", "a title " * rnd.randint(1, 12)]); s["text"] = rnd.choice(TEXTS)
+        ents = [e for s in c["screens"] for e in ((s.get("scripts") or {}).get("input") or [])]
+        if not ents: continue
+        for e in rnd.sample(ents, min(len(ents), rnd.randint(1, 3))):
+            e["acts"] = [["set_width", rnd.choice([100, 60, 33, 12, rnd.randint(5, 120)])]] + list(e.get("acts") or [])
+        c["_adapter_only"] = True
+        cases.append(c)
     cases = [with_cc(c) for c in cases]
     # list layouts (the pure layer shared with C13): unforced numbered lists of 0..25 items that fill their columns, at every width
     from harness.props.common import with_cc as pure_cc
@@ -78,6 +91,7 @@ def monitor(case, obs):
             if len(l.rstrip(" ")) > w: return "a list layout line %r is longer than the requested width %d" % (l, w)
         return None
     out = obs["out"]; W = case.get("width", 80)
+    if case.get("_adapter_only"): return monitor_resized(case, obs)
     own = "".join(strings_of({k: v for k, v in case.items() if k != "cc"}))
     for ch in out:
         o = ord(ch)
@@ -106,6 +120,38 @@ def monitor(case, obs):
         if k >= 0: body = out_t[:k + 1]
     for line in body.split("\n"):
         if len(line.rstrip(" ")) > W: return "output line %r is longer than the configured width %d" % (line[:140], W)
+    return None
+
+
+def monitor_resized(case, obs):
+    """sessions in which the application changes the configured width: every draw is preceded by the separator of exactly the width configured at that moment, and
+    every line written after a change is within the new width"""
+    from harness.impl.app import Render
+    out = obs["out"]; x = X(case, obs)
+    changes = [(0, case.get("width", 80))]
+    for i, ev, ctx in x.events():
+        if ev[0] == "api<" and ev[1] == "set_width" and ctx.get("out") is not None and not ctx.get("reader"):
+            w = next(e[2] for e, c in reversed(x.x[:i]) if e[0] == "api" and e[1] == "set_width")
+            changes.append((ctx["out"], w))
+    def w_at(off): return [w for o, w in changes if o <= off][-1]
+    for i, ev, ctx in x.events():
+        if ev[0] == "cb" and ev[2] == "show" and "out" in ctx and not x.specs[ev[1]].get("no_separator"):
+            W = w_at(ctx["out"]); sep = ("=" * W + "\n") * 2; before = out[:ctx["out"]]
+            if not before.endswith(sep) or (W > 0 and before[:-len(sep)].endswith("=")):
+                return "the configured width is %d when %s is drawn, but the draw is not preceded by two separator lines of exactly %d '=': %r" % (W, x.specs[ev[1]]["name"], W, before[-(2 * W + 6):][-200:])
+    if obs["outcome"][0] == "killed": return None
+    # lines: a prompt leaves its line open (see monitor); judged with the width in force where the line starts
+    ptxts = sorted({Render.prompt_text(k, w) for k in ("default", "cont", "msg") for _, w in changes}, key=len, reverse=True)
+    pos = 0
+    while pos < len(out):
+        W = w_at(pos)
+        nl = out.find("\n", pos); end = len(out) if nl < 0 else nl
+        line = out[pos:end]
+        for p_ in ptxts:
+            last = p_.rstrip("\n").split("\n")[-1]
+            if last.strip() and line.startswith(last): line = last; break
+        if len(line.rstrip(" ")) > W: return "output line %r, written while the configured width is %d, is longer than that" % (line[:140], W)
+        pos = end + 1
     return None
 
 
